@@ -139,7 +139,10 @@ def malformed(rng):
 
 
 EXTREME_INTS = [-2147483648, -2147483647, -16, -2, -1, 0, 1, 2, 14, 15, 16, 17, 31, 255, 65536,
-                2147483646, 2147483647]
+                2147483646, 2147483647,
+                # in range modulo a power of two (narrowing conversions): 2^8, 2^16, 2^24 plus a small value
+                256, 257, 258, 261, 265, 271, 512 + 3, 65536 + 5, 65536 + 15, 16777216 + 2, 16777216 + 9,
+                -256 + 3, -256 + 15, -65536 + 1, -65536 + 9, -16777216 + 4]
 
 
 def structured_valid_cells():
